@@ -37,7 +37,12 @@ Lines == <<
   Mt("! Expires: 14 days (update frequency)", "Expires", "days:14"), Mt("! Expires: 336 hours", "Expires", "hours:336"),
   Mt("! Expires: 0 days", "Expires", ""), Mt("! Expires: 15 days", "Expires", ""), Mt("! Expires: 337 hours", "Expires", ""),
   Mt("! Expires: +3 days", "Expires", ""), Mt("! Expires: 3 weeks", "Expires", ""), Mt("! Expires: 3  days", "Expires", ""),
-  Mt("! Expires: 1 day", "Expires", "days:1"), Mt("!Title: X", "", ""), Mt("! title: x", "", ""), Mt("! Title", "", "")
+  Mt("! Expires: 1 day", "Expires", "days:1"), Mt("!Title: X", "", ""), Mt("! title: x", "", ""), Mt("! Title", "", ""),
+  \* amounts around the limits of the integer types a parser may use (u8: 255/256, u16: 65535/65536, 24 x 2731 > 65535)
+  Mt("! Expires: 255 days", "Expires", ""), Mt("! Expires: 256 days", "Expires", ""), Mt("! Expires: 270 days", "Expires", ""),
+  Mt("! Expires: 2731 days", "Expires", ""), Mt("! Expires: 65535 days", "Expires", ""), Mt("! Expires: 65536 days", "Expires", ""),
+  Mt("! Expires: 65537 hours", "Expires", ""), Mt("! Expires: 65872 hours", "Expires", ""), Mt("! Expires: 4294967297 days", "Expires", ""),
+  Mt("! Expires: 0 hours", "Expires", ""), Mt("! Expires: -1 days", "Expires", ""), Mt("! Expires: 014 days", "Expires", "days:14")
 >>
 
 Accepted(l, f, r) ==
